@@ -9,7 +9,11 @@ Abstractions
 * uint256 fee arithmetic is `Nat` with explicit wrap-around: `SetFromBig` truncates (`% U256`), the two
   `SubUint64` sites use `subW`, the additions at l.210 and l.225 use `addW`;
 * a nil-map-entry dereference / index-out-of-range panic sets `panicked`;
-* locks, events, metrics callback, blockStamp/resend and `data` are not modelled.
+* `item.blockStamp` is kept in the map `stamp` (hash ↦ height at which the item was added; an item is
+  identified by its hash, so this is the same information as a field of the list element);
+  the calls of the resend callback made by one `RemoveStale` are logged in `resent` (in call order;
+  the Go code makes them from a goroutine started at the end of `RemoveStale`);
+* locks, events, metrics callback and `data` are not modelled.
 -/
 namespace NeoModel.Mempool
 
@@ -61,6 +65,8 @@ structure Fee where
 structure Feer where
   balance : Acct → Acct → Nat
   feePerByte : Nat
+  /-- `BlockHeight()` (uint32) -/
+  height : Nat := 0
 
 def upd {κ ν : Type} [DecidableEq κ] (m : κ → Option ν) (k : κ) (v : Option ν) : κ → Option ν :=
   fun x => if x = k then v else m x
@@ -75,6 +81,9 @@ structure Pool where
   capacity : Nat
   feePerByte : Nat
   panicked : Bool
+  stamp : Nat → Nat := fun _ => 0     -- item.blockStamp, by transaction hash
+  resendThreshold : Nat := 0          -- resendThreshold
+  resent : List Nat := []             -- hashes passed to resendFunc by the last RemoveStale
 
 /-- mem_pool.go:501 `New`. -/
 def new (capacity : Nat) : Pool :=
@@ -294,8 +303,9 @@ def placeLast (mp : Pool) (t : Tx) : Pool :=
   else { mp with txs := mp.txs ++ [t] }
 
 /-- mem_pool.go:339-347: verifiedMap, oracleResp and conflicts entries of the inserted transaction. -/
-def register (mp : Pool) (t : Tx) : Pool :=
+def register (mp : Pool) (t : Tx) (height : Nat) : Pool :=
   { mp with
+    stamp := fun x => if x = t.id then height else mp.stamp x    -- l.236 `blockStamp: fee.BlockHeight()`
     vmap := upd mp.vmap t.id (some t)
     oracleResp := match t.oracle with
       | some id => upd mp.oracleResp id (some t.id)
@@ -309,7 +319,7 @@ def insertStage (mp : Pool) (t : Tx) (feer : Feer) : Pool × Option Err :=
   else
     let mp1 := placeLast mp t
     let mp2 := { mp1 with txs := shiftInsert mp1.txs n t }
-    ((tryAddSendersFee (register mp2 t) t feer false).1, none)
+    ((tryAddSendersFee (register mp2 t feer.height) t feer false).1, none)
 
 /-- mem_pool.go:233 `Add`. -/
 def add (mp : Pool) (t : Tx) (feer : Feer) : Pool × Option Err :=
@@ -331,6 +341,18 @@ def loadPolicy (mp : Pool) (feer : Feer) : Pool × Bool :=
 def checkPolicy (mp : Pool) (t : Tx) (policyChanged : Bool) : Bool :=
   !policyChanged || decide (t.feePerByte ≥ mp.feePerByte)
 
+/-- `bits.OnesCount32(n) == 1` -/
+def isPow2 (n : Nat) : Bool := n != 0 && (n &&& (n - 1)) == 0
+
+/-- mem_pool.go:452-459: the item is resent when its age (uint32 arithmetic) is `resendThreshold * 2^k`. -/
+def dueForResend (threshold height stamp : Nat) : Bool :=
+  threshold != 0 &&
+    (let diff := (height + 2 ^ 32 - stamp % 2 ^ 32) % 2 ^ 32
+     diff % threshold == 0 && isPow2 (diff / threshold))
+
+/-- mem_pool.go:522 `SetResendThreshold`. -/
+def setResendThreshold (mp : Pool) (h : Nat) : Pool := { mp with resendThreshold := h }
+
 /-- mem_pool.go:445-473: the loop of `RemoveStale`; `acc` is `newVerifiedTxes`. -/
 def staleLoop (isOK : Tx → Bool) (feer : Feer) (policyChanged : Bool) : List Tx → Pool → List Tx → Pool × List Tx
   | [], mp, acc => (mp, acc)
@@ -339,7 +361,9 @@ def staleLoop (isOK : Tx → Bool) (feer : Feer) (policyChanged : Bool) : List T
       match tryAddSendersFee mp itm feer true with
       | (mp, true) =>
         staleLoop isOK feer policyChanged rest
-          { mp with conflicts := addConflictEntries mp.conflicts itm.id itm.conflicts } (acc ++ [itm])
+          { mp with conflicts := addConflictEntries mp.conflicts itm.id itm.conflicts
+                    resent := if dueForResend mp.resendThreshold feer.height (mp.stamp itm.id)
+                      then mp.resent ++ [itm.id] else mp.resent } (acc ++ [itm])
       | (mp, false) =>
         staleLoop isOK feer policyChanged rest
           { mp with vmap := upd mp.vmap itm.id none
@@ -356,7 +380,7 @@ def staleLoop (isOK : Tx → Bool) (feer : Feer) (policyChanged : Bool) : List T
 /-- mem_pool.go:433 `RemoveStale`. -/
 def removeStale (mp : Pool) (isOK : Tx → Bool) (feer : Feer) : Pool :=
   let lp := loadPolicy mp feer
-  let mp0 : Pool := { lp.1 with fees := fun _ => none, conflicts := fun _ => none }
+  let mp0 : Pool := { lp.1 with fees := fun _ => none, conflicts := fun _ => none, resent := [] }
   let r := staleLoop isOK feer lp.2 mp0.txs mp0 []
   { r.1 with txs := r.2 }
 
